@@ -33,6 +33,11 @@ package beacon
 //@   ensures err == nil ==> b != nil && stored(s, b.Round) && sigOf(s, b.Round) == b.Signature && prevOf(s, b.Round) == b.PreviousSig
 //@   ensures err == nil ==> (forall r int :: stored(s, r) ==> r <= b.Round)
 
+//@ iface (github.com/drand/drand/v2/internal/chain.Store).Get(s, ctx, round) (b, err)
+//@   trusted abstract map contract of a store layer (the concrete back-ends are verified against the same shape under C18): a successful Get returns the stored beacon of exactly the requested round
+//@   modifies nothing
+//@   ensures err == nil ==> b != nil && b.Round == round && stored(s, round) && sigOf(s, round) == b.Signature && prevOf(s, round) == b.PreviousSig
+
 // ---- C02: append-only, gap-free ------------------------------------------------
 
 //@ func newAppendStore(ctx, s) (res, err)
